@@ -561,6 +561,15 @@ func c14Shapes(thorough bool, R *vkit.Report) []c14Shape {
 			}
 		}
 	}
+	// long chains with a small fan-out (deep link trees): the frame counts around 16, 32 and 48 links of depth
+	if !thorough {
+		for _, n := range []int{16, 17, 18, 19, 33, 34, 35, 49, 50, 51} {
+			for _, F := range []int{1, 2, 3} {
+				add(c14Shape{Len: fs * n, FrameSize: fs, FanOut: F, Sum: "crc64", Limited: true})
+			}
+		}
+		add(c14Shape{Len: fs * 60, FrameSize: fs, FanOut: 1, Sum: "fnv", Limited: true})
+	}
 	// real sizes
 	type big struct{ l, n, F int }
 	bigs := []big{{70000, 10, 5}, {1000, 3, 2}}
@@ -593,6 +602,9 @@ func c14Shapes(thorough bool, R *vkit.Report) []c14Shape {
 	}
 	R.Bounds["small_scope_frame_size"] = fs
 	R.Bounds["frame_counts"] = fmt.Sprintf("1..%d", maxN)
+	if !thorough {
+		R.Bounds["frame_counts"] = fmt.Sprintf("1..%d, and 16..19, 33..35, 49..51, 60 with fan-out 1..3 (reduced fault set)", maxN)
+	}
 	R.Bounds["fan_out"] = fmt.Sprintf("1..%d", maxF)
 	R.Bounds["link_orders"] = fmt.Sprintf("all (n-1)! orders of the continuation frames for n<=%d", permN)
 	R.Bounds["checksums"] = []string{"crc64", "fnv"}
